@@ -1,7 +1,7 @@
 """C12 - .gr files: every reader and writer computes the same byte layout (narrow: LAYOUT + version TABLE + width + Endian SIB)."""
 import re
 
-from gsa.cfg import Fn, S, is_call, walk, lit
+from gsa.cfg import Fn, S, canon, is_call, walk, lit
 from gsa.layout import Interp, Poly, Val, SIZES
 
 EXPL = ("Symbolic byte-offset interpretation (polynomials over N = #nodes, E = #edges, S = edge-data size, P = E mod 2, and the "
@@ -566,6 +566,129 @@ def buffered_offsets(ctx, fx):
                "a phantom edge range [0, prefix sum))" % f["params"][1]["n"], fn.loc(), f["key"][-50:], fnkey=f["key"])
 
 
+def frommem_presence(ctx, fx):
+    ctx.rule("C12.frommem.edge-data-present-iff-it-fits",
+             "FileGraph::fromMem decides from the length of the mapping whether the file carries edge data. The bound the length "
+             "is compared with is evaluated symbolically (bytes, both versions, both parities of the edge count): the data "
+             "is taken as present exactly when the mapping is long enough to hold it -- length >= start of the edge data + "
+             "numEdges * sizeofEdge. A bound in other units (e.g. one byte per edge) declares 1-byte edge data absent, "
+             "because the file length then equals the bound")
+    fs = [f for f in fx.functions if f["qn"] == G + "FileGraph::fromMem" and f["kind"] != "pattern"]
+    ctx.floor("FileGraph::fromMem", len(fs), 1)
+    for f in fs[:1]:
+        fn = ctx.fn(f)
+        det = []
+        nb = 0
+        for v in (1, 2):
+            for par in (0, 1):
+                it = Interp(fn, {"m": C(0), "this->numNodes": N, "this->numEdges": E, "this->sizeofEdge": SZ},
+                            {"this->graphVersion": v, "lenlimit": 7}, None, max_paths=64, parity=par)
+                finals = [st for st, _ in it.run()]
+                for b in fn.blocks.values():
+                    c = (b.get("term") or {}).get("cond")
+                    if c is None:
+                        continue
+                    for x in walk(c):
+                        if not (isinstance(x, dict) and x.get("k") == "bin" and x.get("op") in ("<", "<=", ">", ">=")):
+                            continue
+                        cx = canon(x)
+                        l, r = cx["l"], cx["r"]
+                        if S(r) == "lenlimit":
+                            bound, strict = l, cx["op"] == "<"        # bound < lenlimit  /  bound <= lenlimit
+                        else:
+                            continue
+                        for st in finals:
+                            val = it.ev(bound, st)
+                            if val is None:
+                                continue        # the other version's pointer
+                            nb += 1
+                            need = DATA(v) + SZ * E
+                            if par is not None:
+                                need = need.subst("P", par)
+                            got = val.p + (C(1) if strict else C(0))
+                            if got != need:
+                                det.append("version %d, %s edge count: edge data is taken as present when the mapping is at "
+                                           "least %s bytes long; it fits from %s bytes on (S = sizeofEdge): with 1-byte edge data "
+                                           "a complete file is read as having none" % (v, "odd" if par else "even", got, need))
+        if not nb:
+            det.append("no comparison of the mapping length with a bound found")
+        ctx.ob("C12.frommem.edge-data-present-iff-it-fits", f["qn"], not det, "; ".join(sorted(set(det))[:2]), fn.loc(), "lenlimit",
+               fnkey=f["key"])
+
+
+def partial_io(ctx, fxs):
+    ctx.rule("C12.io.partial-transfer-loop",
+             "a raw write(2)/read(2)/pwrite/pread whose byte count is a variable that the loop decreases by the call's result "
+             "(a short transfer is retried for the remainder -- Linux moves at most 0x7ffff000 bytes per call, so every image "
+             "above 2 GiB takes this path): on every path from the call back to itself the buffer pointer advances by the same "
+             "result (and so does the file offset of the positioned variants); otherwise the retry re-sends the beginning of "
+             "the image and the file has the right length but a wrong tail")
+    n = 0
+    seen = set()
+    for fx in fxs:
+        for f in fx.functions:
+            if f["kind"] == "pattern" or f["key"] in seen or not f["file"].startswith(ctx.root + "/"):
+                continue
+            calls = [(b["id"], i, e) for b in f.get("blocks", []) for i, e in enumerate(b["ev"])
+                     if e.get("k") == "call" and e.get("name") in ("write", "read", "pwrite", "pread") and e.get("recv") is None
+                     and len(e.get("a", [])) >= 3]
+            if not calls:
+                continue
+            seen.add(f["key"])
+            fn = ctx.fn(f)
+            for bid, i, e in calls:
+                pos = (bid, i)
+                me = e
+                # only loops: the call can be reached again from itself
+                again, _ = fn.search([fn.after(pos)], stop=lambda x: x is me)
+                if not again:
+                    continue
+                n += 1
+                det = []
+                a = e["a"]
+                ref = lambda t: S(t) if isinstance(t, dict) and t.get("k") in ("ref", "mem") else None
+
+                def strip(t):
+                    while isinstance(t, dict) and t.get("k") in ("cast", "paren"):
+                        t = t.get("e")
+                    return t
+                bufv, cntv = ref(strip(a[1])), ref(strip(a[2]))
+                offv = ref(strip(a[3])) if len(a) > 3 else None
+                # the variable that receives the result
+                res = None
+                for _, x in fn.events(lambda x: (x.get("k") == "assign" and x.get("op") == "=" and any(y is me for y in walk(x.get("rhs")))) or
+                                      (x.get("k") == "decl" and "init" in x and any(y is me for y in walk(x["init"])))):
+                    res = x.get("lp") if x.get("k") == "assign" else x.get("n")
+                if res is None:
+                    # same call spelled inside the assignment's tree (events are separate objects): match by text and line
+                    for _, x in fn.events(lambda x: x.get("k") in ("assign", "decl") and x.get("l") == me.get("l")):
+                        txt = x.get("rp") if x.get("k") == "assign" else x.get("ip")
+                        if txt and me.get("name") + "(" in txt:
+                            res = x.get("lp") if x.get("k") == "assign" else x.get("n")
+                if cntv is None or res is None:
+                    ctx.ob("C12.io.partial-transfer-loop", f["qn"], True, "", fn.loc(pos), "L%s" % e.get("l"), nontrivial=False, fnkey=f["key"])
+                    continue
+                moves = lambda var, op: (lambda x: x.get("k") == "assign" and x.get("lp") == var and x.get("op") == op and x.get("rp") == res)
+                dec = moves(cntv, "-=")
+                if not any(True for _ in fn.events(dec)):
+                    # the count is not reduced by the result: not a retry-the-remainder loop (a fixed-size chunk loop)
+                    ctx.ob("C12.io.partial-transfer-loop", f["qn"], True, "", fn.loc(pos), "L%s" % e.get("l"), nontrivial=False, fnkey=f["key"])
+                    continue
+                for what, var, op in (("buffer pointer", bufv, "+="), ("file offset", offv, "+=")):
+                    if var is None:
+                        if what == "buffer pointer":
+                            det.append("the buffer argument %s is not a plain variable that can advance" % S(a[1]))
+                        continue
+                    adv = moves(var, op)
+                    h, _ = fn.search([fn.after(pos)], stop=lambda x: x is me or adv(x))
+                    if any(fn.ev(y) is me for y in h):
+                        det.append("%s(): after a short transfer the remaining count `%s` is reduced by `%s` but the %s `%s` "
+                                   "does not advance on a path back to the call (line %s): the retry transfers the beginning "
+                                   "of the buffer again" % (e["name"], cntv, res, what, var, e.get("l")))
+                ctx.ob("C12.io.partial-transfer-loop", f["qn"], not det, "; ".join(det), fn.loc(pos), "L%s" % e.get("l"), fnkey=f["key"])
+    ctx.floor("raw transfer loops (write/read retried for the remainder)", n, 1)
+
+
 def run(ctx):
     ctx.explanation = EXPL
     fx = ctx.load("src", "drv_grfile")
@@ -583,3 +706,5 @@ def run(ctx):
     fxt = ctx.load("tool_graph-convert")
     convert_dispatch(ctx, fxt)
     two_phase(ctx, fxt)
+    partial_io(ctx, [fx, fxt] + ([fxd] if fxd is not None else []))
+    frommem_presence(ctx, fx)
